@@ -76,7 +76,8 @@ def kep_case(draw, hyp_ok=True, emax_ell=0.95, bodies=("Earth",)):
     if el["body"] != "Earth":
         frame = "body-centred"  # the one non-rotating frame vf.props.c01.frame_for() builds on that body
     return dict(el=el, form=form, frame=frame, epoch_us=epoch_us, dt_us=dt_us, lam=lam, k=k, share=share,
-                label=draw(st.sampled_from(LABELS)), epoch_label=draw(st.sampled_from(LABELS)))
+                label=draw(st.sampled_from(LABELS)), epoch_label=draw(st.sampled_from(LABELS)),
+                by_name=draw(st.integers(0, 3)) == 0)
 
 
 def build(case, propagator):
@@ -89,6 +90,8 @@ def build(case, propagator):
     if case["form"] in ("spherical", "cylindrical"):
         assume(kappa_polar(cart) < 1e4)  # polar axis = coordinate singularity of these forms
     frame = case["frame"] if el["body"] == "Earth" else frame_for(el["body"])
+    if case.get("by_name"):
+        propagator = type(propagator).__name__  # "Kepler" / "J2": the propagator given by its name
     orb = Orbit(coords, mkdate(case["epoch_us"]), case["form"], frame, propagator)
     return orb, cart, mu
 
